@@ -91,6 +91,13 @@ def check_variant(ctx, k, kind, bound):
         acc = [e[1] for e in q.events if e[0] in LD + ("st", "st-bulk") and not isinstance(e[1], int) and not symex.is_conc(symex.simp(e[1]))]
         if acc:
             ctx.require(q, z3.And(*[z3.UGE(a, BV(0x10000, 64)) for a in acc]), "no access through a null (or near-null) pointer whatever the sandbox supplies")
+        # every byte that is copied or decoded (everything except the strlen scan, which rlbox runs before its range check) is
+        # read from inside the sandbox region: a copy from an address that was not the one range-checked is not
+        rd = [(e[1], e[2]) for e in q.events if e[0] in ("ld", "ld-bulk", "ld-atomic") and not isinstance(e[1], int) and not symex.is_conc(symex.simp(e[1]))]
+        if rd and kind in ("range", "string_u", "string_s", "deny", "bufaddr"):     # the variants that range-check an extent (a plain *p of an object
+            # straddling the end of the region is the recorded finding C03-object-straddles-end, not a C09 matter)
+            ctx.require(q, z3.And(*[z3.And(z3.UGE(a_, base), z3.ULE(zext(a_ - base, 128) + (zext(n_, 128) if not isinstance(n_, int) else n_), BV(SIZE, 128))) for a_, n_ in rd]),
+                        "every sandbox byte that is copied or decoded is read from inside the sandbox region, whatever the sandbox writes between rlbox's fetches")
         if q.status != "ret":
             continue
         lg = [e for e in (q.user.get("log") or []) if e[0] == 5]
